@@ -462,10 +462,16 @@ def run_case(job):
     # object of its own (same configuration, same key), as a second run of the program would
     fresh2 = job.get("fresh2", seed_ % 2 == 1)
     info["fresh2"] = bool(fresh2)
+    reseed = seed_ % 3 == 0
+    info["reseed"] = reseed
     for i in (1, 2):
         if i == 2 and fresh2:
             sch = ml.SSEScheme(cfg)
             install(sch)
+        if reseed:
+            # a caller that wants reproducible runs seeds the GLOBAL generator of the random module before every setup:
+            # whatever draws placement from it repeats itself - the encryption must not
+            random.seed(20240607)
         REC.start()
         try:
             edb = sch.EDBSetup(key, db)
